@@ -626,7 +626,7 @@ pub fn run_c24(ctx: &mut Ctx) {
         }
         for c in fixed_crashes() { cases.push((c, None)); }
         let mut rng = ctx.rng.fork();
-        for _ in 0..ctx.budget(1, 40) { cases.push((random_crash(&mut rng), None)); }
+        for _ in 0..ctx.budget(1, 15) { cases.push((random_crash(&mut rng), None)); }
     }
     let mut total_points = 0usize;
     for (crash, only) in cases {
